@@ -1,4 +1,4 @@
-From Urwid Require Import ListBoxView.
+From Urwid Require Import ListBoxWalker.
 From Coq Require Extraction ExtrOcamlBasic.
 Extraction Language OCaml.
 Extraction "model.ml" run_case.
